@@ -15,5 +15,5 @@ CONSTANTS
 INIT Init
 NEXT Next
 VIEW view
-INVARIANTS InvSeqStep InvContiguous InvNoMisuse InvFreshInst
+INVARIANTS InvSeqStep InvContiguous InvNoMisuse InvFreshInst InvLateOnNew
 CHECK_DEADLOCK FALSE
